@@ -23,7 +23,7 @@ def gindex(it, tag, c):
 def epoch_key(eid): return [Agg('bytes_of_u64', [eid])]
 
 
-def setup_dist(it, nepochs=3, nassets=1, grace=None, cursor='some', owner='owner', claimed_shape='full'):
+def setup_dist(it, nepochs=3, nassets=1, grace=None, cursor='some', owner='owner', claimed_shape='full', expired=0):
     """distributor with `nepochs` consecutive epochs (ids base+1..base+n, symbolic base), each with `nassets` assets satisfying
     claimed + available = total; cursor: 'some' (LAST_CLAIMED_EPOCH[alice] symbolic) | 'none_bonded' | 'none_never'."""
     c = it.ctx; w = it.world; w.contract = DIST
@@ -54,8 +54,16 @@ def setup_dist(it, nepochs=3, nassets=1, grace=None, cursor='some', owner='owner
             for j in range(nassets): c.assume(av[j] == tot[j])
         if claimed_shape == 'first_only':
             for j in range(1, nassets): c.assume(av[j] == tot[j])
+        avv = VecV([nasset(it, ASSETS[j], av[j]) for j in range(nassets)])
+        if k < expired:
+            # an epoch that already left the grace window once: its remainder was rolled over and `available` cleared,
+            # while claimed <= total stays as it was (reachable: it re-enters the window when the grace period is increased)
+            cl2 = [c.sym('expired_claimed%d_%d' % (k, j), 128) for j in range(nassets)]
+            for j in range(nassets):
+                c.assume(cl2[j] <= tot[j]); tot_avail[j] = tot_avail[j] - av[j]; av[j] = 0; cl[j] = cl2[j]
+            avv = VecV([]); clv = VecV([nasset(it, ASSETS[j], cl2[j]) for j in range(nassets)])
         ep = it.mk(FD + 'Epoch', id=U64(eid), start_time=TS(start), total=VecV([nasset(it, ASSETS[j], tot[j]) for j in range(nassets)]),
-                   available=VecV([nasset(it, ASSETS[j], av[j]) for j in range(nassets)]), claimed=clv, global_index=gi)
+                   available=avv, claimed=clv, global_index=gi)
         entries.append((epoch_key(eid), ep))
         eps.append(dict(id=eid, start=start, tot=tot, av=av, cl=cl, gi=gi, share=c.sym('share%d' % k, 128)))
         c.assume(eps[-1]['share'] <= E18)
